@@ -7,6 +7,8 @@ import Lockable.Proofs.LinearOut
 import Lockable.Proofs.Holds
 import Lockable.Proofs.Erasure
 import Lockable.Proofs.Stream
+import Lockable.Proofs.Frame
+import Lockable.Proofs.Layers
 set_option linter.unusedSimpArgs false
 namespace Lockable
 
@@ -159,5 +161,52 @@ theorem lock_wait_cancel_erased (a : Api) (hi : AInv a) (h k h0 : Nat) (m : Entr
   unfold Api.exec
   have hos' : ({ a with s := (enqueue (lookup a.s h k).1 h).1 } : Api).ownedByStream h = false := hos
   simp only [hos', Bool.false_eq_true, ↓reduceIte, hsu, Api.cancelHandle, hnw, e2, Api.woken, e1]
+
+/-- a plain lock call (no limit), whatever it answers, changes no stored value -/
+theorem lock_plain_vals (a : Api) (v : Variant) (h k h0 k' : Nat) :
+    absVal (a.lock v h k .none h0).1.s k' = absVal a.s k' := by
+  unfold Api.lock
+  simp only [Nat.zero_add]
+  unfold Api.lockPrelude
+  simp only []
+  have hl := absVal_lookup a.s h k k'
+  have ht := absVal_tryKey (lookup a.s h k).1 h k'
+  have he := absVal_enqueue (lookup a.s h k).1 h k'
+  have hc := absVal_cleanupFailed (tryKey (lookup a.s h k).1 h).1 h k'
+  repeat' split
+  all_goals (try simp only [])
+  all_goals first
+    | exact hl
+    | (rw [he]; exact hl)
+    | (rw [ht]; exact hl)
+    | (rw [hc, ht]; exact hl)
+    | skip
+theorem lock_plain_susp (a : Api) (v : Variant) (h k h0 : Nat) :
+    (a.lock v h k .none h0).1.susp = a.susp ∧ (a.lock v h k .none h0).1.streams = a.streams := by
+  unfold Api.lock
+  simp only [Nat.zero_add]
+  unfold Api.lockPrelude
+  simp only []
+  repeat' split
+  all_goals (try simp only [])
+  all_goals first | exact ⟨rfl, rfl⟩ | exact ⟨trivial, trivial⟩ | simp
+
+/-- the guard a plain lock call returns reads exactly the value the map had for the key before the call -/
+theorem lock_plain_reads (a : Api) (hi : Inv a.s) (v : Variant) (h k h0 : Nat) (hf : a.s.hs h = none)
+    (hs : a.ownedBySusp h = false) (hg : (a.exec (.lock v h k .none h0)).2.res.isGuard = true) :
+    ((a.exec (.lock v h k .none h0)).1.exec (.op h .value)).2.res = .out (.optVal ((absSpec a.s).vals k)) := by
+  have hg' : (a.lock v h k .none h0).2.res.isGuard = true := hg
+  have h1 := lock_guard_holds a v h k .none h0 hi hf
+  have hi' := inv_lock a v h k .none h0 hi
+  show ((a.lock v h k .none h0).1.exec (.op h .value)).2.res = _
+  cases hr : (a.lock v h k .none h0).2.res <;> rw [hr] at hg' <;> simp [Res.isGuard] at hg'
+  simp only [hr] at h1
+  obtain ⟨hd, e1, e2, e3⟩ := h1
+  have hos : (a.lock v h k .none h0).1.ownedBySusp h = false := by
+    unfold Api.ownedBySusp; rw [(lock_plain_susp a v h k h0).1]; exact hs
+  have hout := (gop_out_spec _ hi' h hd .value e1 e3).1
+  unfold Api.exec
+  simp only [hos, Bool.false_eq_true, ↓reduceIte, hout, specOp, e2]
+  simp [absSpec, lock_plain_vals]
 
 end Lockable
